@@ -258,3 +258,135 @@ func genC07Wire(g *Gen) error {
 	}
 	return nil
 }
+
+// genC07PreAgg: the pre-aggregation blocks. The three length tests that keep the block forms
+// apart — "is the variable-length form kept" in marshal, "is this the variable-length form" in
+// unmarshal, and PreAggOnlyOneRow — are *translated* (the model uses them, preagg_roundtrip is
+// re-proved against them); the bodies are pinned.
+func genC07PreAgg(g *Gen) error {
+	const pa = "engine/immutable/pre_aggregation.go"
+	g.P("")
+	g.P("/-! ## pre-aggregation blocks -/")
+	t := &Tr{g: g}
+	t.Ident = func(name string) string {
+		switch name {
+		case "size":
+			return "size0"
+		}
+		return ""
+	}
+	t.Call = func(fun, method, recv string, args []string) string {
+		switch {
+		case fun == "len" && len(args) == 1 && args[0] == "dst":
+			return "dstLen"
+		case fun == "len" && len(args) == 1 && args[0] == "src":
+			return "srcLen"
+		case fun == "len" && len(args) == 1 && args[0] == "buf":
+			return "bufLen"
+		case method == "size" && len(args) == 0:
+			return "fixedSize"
+		}
+		return ""
+	}
+	// the `if <cond> { return dst }` that keeps the variable-length form, and the
+	// `if <cond> { return m.VLCDecode(src) }` that reads it
+	cond := func(fn, bodyHas string) (string, error) {
+		fd, err := g.Func(pa, fn)
+		if err != nil {
+			return "", err
+		}
+		var found []ast.Expr
+		ast.Inspect(fd.Body, func(n ast.Node) bool {
+			ifs, ok := n.(*ast.IfStmt)
+			if !ok || ifs.Init != nil || ifs.Else != nil || len(ifs.Body.List) != 1 {
+				return true
+			}
+			if strings.Contains(g.Src(ifs.Cond), "m.size()") && g.Src(ifs.Body.List[0]) == bodyHas {
+				found = append(found, ifs.Cond)
+			}
+			return true
+		})
+		if len(found) != 1 {
+			return "", fmt.Errorf("%s %s: expected exactly one `if … m.size() … { %s }`, found %d", pa, fn, bodyHas, len(found))
+		}
+		return t.expr(found[0])
+	}
+	for _, ty := range []string{"Integer", "Float"} {
+		low := strings.ToLower(ty[:1]) + ty[1:]
+		c, err := cond(ty+"PreAgg.marshal", "return dst")
+		if err != nil {
+			return err
+		}
+		g.P("/-- `%sPreAgg.marshal`: the variable-length form (`dstLen - size0` bytes) is kept -/", ty)
+		g.P("def %sPreAggKeepVLC (dstLen size0 fixedSize : Nat) : Bool :=\n  %s\n", low, c)
+		c, err = cond(ty+"PreAgg.unmarshal", "return m.VLCDecode(src)")
+		if err != nil {
+			return err
+		}
+		g.P("/-- `%sPreAgg.unmarshal`: the block is read as the variable-length form -/", ty)
+		g.P("def %sPreAggReadVLC (srcLen fixedSize : Nat) : Bool :=\n  %s\n", low, c)
+	}
+	if err := t.Method(pa, "PreAggOnlyOneRow", "preAggOnlyOneRow", "(bufLen : Nat)", "Bool"); err != nil {
+		return err
+	}
+	for _, f := range [][3]string{
+		{pa, "IntegerPreAgg.marshal", "src_intPreAggMarshal"},
+		{pa, "IntegerPreAgg.unmarshal", "src_intPreAggUnmarshal"},
+		{pa, "IntegerPreAgg.VLCEncode", "src_intPreAggVLCEncode"},
+		{pa, "IntegerPreAgg.VLCDecode", "src_intPreAggVLCDecode"},
+		{pa, "IntegerPreAgg.size", "src_intPreAggSize"},
+		{pa, "FloatPreAgg.marshal", "src_floatPreAggMarshal"},
+		{pa, "FloatPreAgg.unmarshal", "src_floatPreAggUnmarshal"},
+		{pa, "FloatPreAgg.VLCEncode", "src_floatPreAggVLCEncode"},
+		{pa, "FloatPreAgg.VLCDecode", "src_floatPreAggVLCDecode"},
+		{pa, "FloatPreAgg.size", "src_floatPreAggSize"},
+		{pa, "BooleanPreAgg.marshal", "src_boolPreAggMarshal"},
+		{pa, "BooleanPreAgg.unmarshal", "src_boolPreAggUnmarshal"},
+		{pa, "StringPreAgg.marshal", "src_stringPreAggMarshal"},
+		{pa, "StringPreAgg.unmarshal", "src_stringPreAggUnmarshal"},
+		{pa, "TimePreAgg.marshal", "src_timePreAggMarshal"},
+		{pa, "TimePreAgg.unmarshal", "src_timePreAggUnmarshal"},
+		{pa, "DecodeAggTimes", "src_decodeAggTimes"},
+	} {
+		if err := g.srcDef(f[0], f[1], f[2]); err != nil {
+			return err
+		}
+	}
+	for _, s := range [][3]string{
+		{pa, "IntegerPreAgg", "fields_IntegerPreAgg"},
+		{pa, "FloatPreAgg", "fields_FloatPreAgg"},
+		{pa, "BooleanPreAgg", "fields_BooleanPreAgg"},
+		{pa, "StringPreAgg", "fields_StringPreAgg"},
+		{pa, "TimePreAgg", "fields_TimePreAgg"},
+	} {
+		fs, err := g.structFields(s[0], s[1])
+		if err != nil {
+			return err
+		}
+		g.StrList(s[2], fs)
+	}
+	// minIndex … countIndex = iota order
+	f, err := g.Parse(pa)
+	if err != nil {
+		return err
+	}
+	var names []string
+	for _, d := range f.Decls {
+		gd, ok := d.(*ast.GenDecl)
+		if !ok || len(gd.Specs) == 0 {
+			continue
+		}
+		first, ok := gd.Specs[0].(*ast.ValueSpec)
+		if !ok || len(first.Names) != 1 || first.Names[0].Name != "minIndex" {
+			continue
+		}
+		for _, sp := range gd.Specs {
+			names = append(names, sp.(*ast.ValueSpec).Names[0].Name)
+		}
+	}
+	if len(names) == 0 {
+		return fmt.Errorf("%s: minIndex … constants not found", pa)
+	}
+	g.StrList("preAggIndexNames", names)
+	return nil
+}
